@@ -151,6 +151,10 @@ func (f *MakeArray) Call(s *slip.Scope, args slip.List, depth int) slip.Object {
 						v[i] = byte(o)
 					}
 				}
+				if len(v) < len(initContents) {
+					slip.ErrorPanic(s, depth, "Malformed :initial-contents: Dimension of axis 0 is %d but received %d.",
+						len(v), len(initContents))
+				}
 				for i, c := range initContents {
 					o, _ := slip.Coerce(c, slip.OctetSymbol).(slip.Octet)
 					v[i] = byte(o)
